@@ -68,6 +68,12 @@ def parse(s):
     s2 = re.sub(r"(<(Continue|Some|Ok|Ready)>\.0)+$", "", s)
     if s2 != s:
         return parse(s2)
+    m = re.match(r"^(\(.*\))((\.\w+)+)$", s)
+    if m and _matching(s, 0) == len(m.group(1)) - 1:
+        node = parse(m.group(1))
+        for f in [x for x in m.group(2).split(".") if x]:
+            node = ("field", f, node)
+        return node
     if s.startswith("(") and s.endswith(")") and _matching(s, 0) == len(s) - 1:
         inner = s[1:-1]
         # a OP b at depth 0
